@@ -31,9 +31,16 @@ type roundedCounter struct {
 
 // Implements the RoundedCounter interface
 func (c *roundedCounter) Inc() {
-	atomic.AddUint64(&c.total, 1)
-	if c.total > c.value {
-		atomic.AddUint64(&c.value, 8)
+	total := atomic.AddUint64(&c.total, 1)
+	// Raise the published value to the next multiple of 8 if this event
+	// went past it. Checking and adding must be one atomic step: with a
+	// separate check and add, concurrent callers could each see
+	// total > value and each add 8, overshooting the bin.
+	for {
+		value := atomic.LoadUint64(&c.value)
+		if total <= value || atomic.CompareAndSwapUint64(&c.value, value, value+8) {
+			return
+		}
 	}
 }
 
@@ -46,7 +53,7 @@ func (c *roundedCounter) Desc() *prometheus.Desc {
 func (c *roundedCounter) Write(m *dto.Metric) error {
 	m.Label = c.labelPairs
 
-	m.Counter = &dto.Counter{Value: proto.Float64(float64(c.value))}
+	m.Counter = &dto.Counter{Value: proto.Float64(float64(atomic.LoadUint64(&c.value)))}
 	return nil
 }
 
